@@ -1,7 +1,11 @@
 #!/bin/sh
-# usage: try_seed.sh <Cxx> [dir]   -- apply a seeded patch to /repo, run the property's check, undo
+# usage: try_seed.sh <Cxx> [dir]   -- apply a seeded patch to /repo, run the property's check, undo.
+# Evidence and replay files of this run go to a scratch directory, so that /verif/evidence always
+# describes the unchanged tree.
 id=$1; d=${2:-/tmp/seed/$id/out}
 [ -z "$(git -C /repo status --porcelain)" ] || { echo "/repo has uncommitted changes; commit first"; exit 2; }
 cd /repo && git apply "$d/patch.diff" || { echo "patch does not apply"; exit 2; }
-cd /verif && ./check $id --tier quick 2>&1 | grep -v "^  failed" | tail -6
+export GOFLAGS=-mod=vendor GOPROXY=off GOSUMDB=off GOTOOLCHAIN=local CGO_ENABLED=0
+sv=/tmp/tryseed.verif; rm -rf $sv; mkdir -p $sv; cp /verif/known_findings.json $sv/
+cd /verif && ./bin/vcgo check $id --verif $sv 2>&1 | grep -v "^  failed" | tail -6
 cd /repo && git checkout -- . && git status --short | head -3
